@@ -44,11 +44,13 @@ package embed
 
 //@ func CopyBinaryWithoutConfig
 //@ prop C36
+//@ modifies *
 //@ check alloc
 //@ alloc-limit origSize
 
 //@ func AppendConfig
 //@ prop C36
+//@ modifies openedForWrite(dstBinary).wlen, openedForWrite(dstBinary).wdata
 //@ check bounds alloc
 //@ ensures err == nil ==> openedForWrite(dstBinary).wlen == pathSize(srcBinary) + len(config) + 16
 //@ ensures err == nil ==> forall j in 0..pathSize(srcBinary): openedForWrite(dstBinary).wdata[j] == pathData(srcBinary)[j]
